@@ -133,13 +133,14 @@ def gen_driver(proj, r, f, fi, contract, strcap):
         n = 'in_' + p.name
         if p.kind == 'val':
             if n not in inp:
-                return None
+                # not in the (sliced) trace: the value is irrelevant to the failure; use zero
+                inp[n] = dict(binary='0' * 64 if p.ctype in ('double', 'long long', 'unsigned long long', 'size_t', 'long') else '0' * 32 if p.ctype in ('int', 'unsigned', 'float') else '0' * 8, data='0')
             L.append('  %s %s = %s;' % (p.ctype.replace('_Bool', 'bool'), p.name, _lit(p.ctype, inp[n])))
             call_args.append(p.name)
         elif p.kind == 'ref':
             bt = p.ctype.rstrip('* ').strip()
             if n not in inp:
-                return None
+                inp[n] = dict(binary='0' * 64 if bt in ('double', 'long long', 'unsigned long long', 'size_t', 'long') else '0' * 32 if bt in ('int', 'unsigned', 'float') else '0' * 8, data='0')
             L.append('  %s %s_obj = %s; %s* %s = &%s_obj;' % (bt.replace('_Bool', 'bool'), p.name, _lit(bt, inp[n]), bt.replace('_Bool', 'bool'), p.name, p.name))
             call_args.append('%s_obj' % p.name)
         elif p.kind in ('str_in', 'str_out'):
